@@ -130,6 +130,17 @@ where
                 let b = b.ok_or_else(|| de::Error::missing_field("b"))?;
                 let buildhasher =
                     buildhasher.ok_or_else(|| de::Error::missing_field("buildhasher"))?;
+                // same invariants as `HyperLogLog::with_registers_and_hash`, reported as errors
+                let registers: Vec<u8> = registers;
+                let b: usize = b;
+                if !(4..=18).contains(&b) {
+                    return Err(de::Error::custom(
+                        "b must be larger or equal than 4 and smaller or equal than 18",
+                    ));
+                }
+                if registers.len() != (1_usize << b) {
+                    return Err(de::Error::custom("registers must have length of 2^b"));
+                }
                 Ok(HyperLogLog {
                     registers,
                     b,
